@@ -3,21 +3,21 @@ import ast
 import string
 
 from ..model import dotted, src, calls_in, kw, AnalysisError
-from ..common import fpaths, peel, mkterm, mkbool, guard_cases, const_str, actual
+from ..common import fpaths, peel, mkterm, mkbool, guard_cases, const_str, actual, walk_closure, none_state, path_literals, truth_on_path, infeasible
 from ..terms import Term, exp2, NotATerm, witness, fapp
 from ..paths import enum_paths, walk_path
 from .. import anchors as A
 
 
 def _opt_switch(pf, name, flag, value_path):
-    """env[name] must be `value_path if flag else None` (by guard or conditional expression)"""
+    """env[name] must be `value_path if flag else None` on this path"""
     v = pf.env.get(name)
     if v is None:
         return None
-    g = [x for x in pf.guards if x[2] is not None and dotted(x[2]) == flag]
-    if g:
-        if g[-1][1]:
-            return dotted(v) == value_path
+    t = truth_on_path(ast.Name(id=flag, ctx=ast.Load()), pf.guards)
+    if t is True:
+        return dotted(v) == value_path
+    if t is False:
         return isinstance(v, ast.Constant) and v.value is None
     if isinstance(v, ast.IfExp) and dotted(v.test) == flag:
         return dotted(v.body) == value_path and isinstance(v.orelse, ast.Constant) and v.orelse.value is None
@@ -39,13 +39,17 @@ def render_sites(ck, rule):
                    "n_frac_dot = %s" % (src(pf.env.get("n_frac_dot"))[:70] if pf.env.get("n_frac_dot") is not None else None), b.node,
                    "an and/or idiom or a wrong operand drops the point for n_frac == 0 or puts it elsewhere")
             break
-    for c in calls_in(b.node):
-        if prog.resolve_call(b, c) == "utils.binary_repr":
+    for g_, c in [(g_, n_) for g_, n_ in walk_closure(prog, b) if isinstance(n_, ast.Call)]:
+        if prog.resolve_call(g_, c) == "utils.binary_repr":
             n_bin += 1
             nw, nf, px = kw(c, "n_word", 1), kw(c, "n_frac", 2), kw(c, "prefix", 3)
             x = c.args[0] if c.args else None
             xin = peel(x)[0] if x is not None else None
             okint = isinstance(x, ast.Call) and dotted(x.func) in ("int", "utils.int_array")
+            if not okint and isinstance(x, ast.Name) and g_ is not b and x.id in g_.params:
+                # helper closure: every call of the helper passes int(...) / utils.int_array(...)
+                hc = [c2 for _, c2 in [(q_, n2) for q_, n2 in walk_closure(prog, b) if isinstance(n2, ast.Call)] if isinstance(c2.func, ast.Name) and c2.func.id == g_.name]
+                okint = bool(hc) and all(c2.args and isinstance(c2.args[0], ast.Call) and dotted(c2.args[0].func) in ("int", "utils.int_array") for c2 in hc)
             ck.check(dotted(nw) == "self.n_word", rule, b, "bin() renders n_word characters: binary_repr(n_word=self.n_word)", "n_word=%s" % (src(nw) if nw is not None else None), c,
                      "the image is shorter/longer than the word")
             ck.check(dotted(nf) == "n_frac_dot", rule, b, "bin() passes the requested point position", "n_frac=%s" % (src(nf) if nf is not None else None), c, nontrivial=False)
@@ -59,8 +63,8 @@ def render_sites(ck, rule):
         if okp is not True:
             ck.bad(rule, h, "hex(padding=True) pads to the word length", "hex_n_word = %s" % (src(pf.env.get("hex_n_word"))[:60] if pf.env.get("hex_n_word") is not None else None), h.node)
             break
-    for c in calls_in(h.node):
-        r = prog.resolve_call(h, c)
+    for g_, c in [(g_, n_) for g_, n_ in walk_closure(prog, h) if isinstance(n_, ast.Call)]:
+        r = prog.resolve_call(g_, c)
         if r == "utils.hex_repr":
             n_hex += 1
             base = kw(c, "base", 3)
@@ -83,7 +87,15 @@ def render_sites(ck, rule):
                      "hex_repr(%s, base=%s)" % (src(x)[:50] if x is not None else None, src(base) if base is not None else None), c,
                      "hex of a negative or top-bit-set code is not the two's-complement bit pattern")
             ck.check(dotted(nw) == "hex_n_word", rule, h, "hex() passes the padding width", "n_word=%s" % (src(nw) if nw is not None else None), c, nontrivial=False)
-    ck.check(n_bin >= 6 and n_hex >= 6, rule, b, "render call sites found: %d binary_repr in bin(), %d hex_repr in hex()" % (n_bin, n_hex), "only %d/%d render sites" % (n_bin, n_hex), b.node)
+    # helper closures that wrap the renderer count once per call of the helper
+    for fn_, cnt_name in ((b, "bin"), (h, "hex")):
+        for g_, c in [(g_, n_) for g_, n_ in walk_closure(prog, fn_) if isinstance(n_, ast.Call)]:
+            if isinstance(c.func, ast.Name) and any(g2.name == c.func.id and g2 is not fn_ for g2, _ in [(q_, None) for q_ in __import__("fxlint.common", fromlist=["closure_funcs"]).closure_funcs(prog, fn_)]):
+                if cnt_name == "bin":
+                    n_bin += 1
+                else:
+                    n_hex += 1
+    ck.check(n_bin >= 6 and n_hex >= 6, rule, b, "render call sites found: %d in bin(), %d in hex() (scalar/array x real/complex)" % (n_bin, n_hex), "only %d/%d render sites" % (n_bin, n_hex), b.node)
     ck.saw(b)
     ck.saw(h)
 
@@ -96,9 +108,13 @@ def hex_image(ck, rule):
     for pf in fpaths(prog, f):
         if pf.end != "return" or pf.ret is None:
             continue
-        gw = [g for g in pf.guards if g[2] is not None and src(g[2]) == "n_word is not None"]
-        gb = [g for g in pf.guards if g[2] is not None and src(g[2]) == "base == 2"]
-        if not (gw and gw[-1][1] and gb and gb[-1][1]):
+        if none_state(pf.guards, "n_word") is not False:
+            continue
+        base2 = None
+        for t, pol in path_literals(pf.guards):
+            if isinstance(t, ast.Compare) and len(t.ops) == 1 and dotted(t.left) == "base" and isinstance(t.comparators[0], ast.Constant) and t.comparators[0].value == 2:
+                base2 = pol if isinstance(t.ops[0], ast.Eq) else ((not pol) if isinstance(t.ops[0], ast.NotEq) else None)
+        if base2 is not True:
             continue
         found = True
         r = pf.ret
@@ -239,68 +255,175 @@ def _eval_cmp(t, env):
     raise ValueError("expr")
 
 
+def _abs2(e, nf_name, lens):
+    """abstract string (length, digits right of point, haspoint) of a substituted expression; sub-expressions that are not string
+    constants / concatenations / repetitions / slices are opaque bases with a symbolic length len(<src>) (registered in ``lens``)"""
+    if isinstance(e, ast.Constant) and isinstance(e.value, str):
+        if "." in e.value:
+            i_ = e.value.index(".")
+            return _Str(Term.const(len(e.value)), Term.const(len(e.value) - i_ - 1), True)
+        return _Str(Term.const(len(e.value)))
+    if isinstance(e, ast.BinOp) and isinstance(e.op, ast.Add):
+        a, b = _abs2(e.left, nf_name, lens), _abs2(e.right, nf_name, lens)
+        if a.haspoint and b.haspoint:
+            raise NotATerm("two points")
+        if a.haspoint:
+            return _Str(a.length + b.length, a.right + b.length, True)
+        if b.haspoint:
+            return _Str(a.length + b.length, b.right, True)
+        return _Str(a.length + b.length)
+    if isinstance(e, ast.BinOp) and isinstance(e.op, ast.Mult):
+        for s_, n_ in ((e.left, e.right), (e.right, e.left)):
+            if isinstance(s_, ast.Constant) and isinstance(s_.value, str) and "." not in s_.value:
+                return _Str(_len_term(n_, nf_name, lens) * len(s_.value))
+        raise NotATerm("string product")
+    if isinstance(e, ast.Subscript) and isinstance(e.slice, ast.Slice):
+        base = _abs2(e.value, nf_name, lens)
+        if base.haspoint:
+            raise NotATerm("slice of pointed string")
+        L = base.length
+        lo, hi = e.slice.lower, e.slice.upper
+
+        def idx(t, default):
+            if t is None:
+                return default
+            v = _len_term(t, nf_name, lens)
+            cv = v.const_value()
+            if cv is not None and cv >= 0:
+                return v
+            if cv is not None and cv < 0:
+                return L + v
+            # -n_frac style: a negated positive quantity
+            if isinstance(t, ast.UnaryOp) and isinstance(t.op, ast.USub):
+                return L + v
+            return v
+        a = idx(lo, Term.const(0))
+        b = idx(hi, L)
+        return _Str(b - a)
+    # opaque base
+    key = src(e)
+    lens.setdefault(key, Term.var("len<%d>" % len(lens)))
+    return _Str(lens[key])
+
+
+def _len_term(t, nf_name, lens):
+    """integer expression with len(X) replaced by the abstract length of X"""
+    import copy
+
+    class R(ast.NodeTransformer):
+        def visit_Call(self, n):
+            self.generic_visit(n)
+            if dotted(n.func) == "len" and len(n.args) == 1:
+                a = _abs2(n.args[0], nf_name, lens)
+                return _TermNode(a.length)
+            return n
+    t2 = R().visit(copy.deepcopy(t))
+    return _term_with_nodes(t2)
+
+
+class _TermNode(ast.AST):
+    _fields = ()
+
+    def __init__(self, term):
+        self.term = term
+
+
+def _term_with_nodes(e):
+    if isinstance(e, _TermNode):
+        return e.term
+    if isinstance(e, ast.BinOp) and isinstance(e.op, (ast.Add, ast.Sub, ast.Mult)):
+        l, r = _term_with_nodes(e.left), _term_with_nodes(e.right)
+        return l + r if isinstance(e.op, ast.Add) else (l - r if isinstance(e.op, ast.Sub) else l * r)
+    if isinstance(e, ast.UnaryOp) and isinstance(e.op, ast.USub):
+        return -_term_with_nodes(e.operand)
+    return mkterm(e, rename=lambda d: d)
+
+
 def point_position(ck, rule):
-    """C11.R3: every branch of insert_frac_point leaves exactly n_frac digits to the right of the point (0 <= n_frac)."""
+    """C11.R3: on every path of insert_frac_point (0 <= n_frac) the returned string has exactly n_frac digits to the right of the point.
+    The returned expression (after substitution) is interpreted in an abstract string domain (length, digits right of the point)."""
     prog = ck.prog
     f = prog.func("utils.insert_frac_point")
     xb, nfp = f.params[0], f.params[1]
-    L = Term.var("L")
     nf = Term.var(nfp)
     okn = 0
-    for pf in fpaths(prog, f):
+    pfs = fpaths(prog, f)
+    ck.saw(f, paths=len(pfs))
+    for pf in pfs:
         if pf.end != "return" or pf.ret is None:
             continue
-        gn = [g for g in pf.guards if g[2] is not None and src(g[2]) == "%s is not None" % nfp]
-        if not gn or not gn[-1][1]:
+        if none_state(pf.guards, nfp) is not False:
             continue
-        # the last assignment of x_bin before `x_bin = sign_symbol + x_bin`
-        sts = [st for st in pf.stores if st.path == xb]
-        cand = None
-        for st in sts:
-            if isinstance(st.raw_value, ast.BinOp) and any(isinstance(n, ast.Constant) and n.value == "." for n in ast.walk(st.raw_value)):
-                cand = st
-        branch_guards = [g for g in pf.guards if g[2] is not None and nfp in src(g[2]) and g is not gn[-1]]
-        if cand is None:
-            # no point inserted on a path with n_frac given: is there any n_frac that reaches here? (finite set of orderings of n_frac vs 0 and len)
-            if not _region_feasible(branch_guards, nfp, xb):
-                continue
-            ck.bad(rule, f, "every n_frac >= 0 gets a binary point", "path without point insertion under %s" % [(src(g[2]), g[1]) for g in branch_guards], f.node,
+        lens = {}
+        # ordering guards on n_frac: n_frac < 0 is outside the quantifier
+        neg = False
+        eqs = {}
+        rawguards = []
+        for t, pol in path_literals(pf.guards):
+            if isinstance(t, ast.Compare) and any(dotted(x) == nfp for x in [t.left] + list(t.comparators)):
+                rawguards.append((t, pol))
+        try:
+            s_ = _abs2(pf.ret, nfp, lens)
+        except NotATerm as e:
+            ck.unsure(rule, f, "returned string is in the abstract string vocabulary", pf.ret_stmt, "%s: %s" % (e, src(pf.ret)[:80]))
+            continue
+        # evaluate the ordering guards over the regions of n_frac relative to 0 and to the digit count
+        digit_len = None
+        for t, pol in rawguards:
+            for x in [t.left] + list(t.comparators):
+                if isinstance(x, ast.Call) and dotted(x.func) == "len":
+                    digit_len = _abs2(x.args[0], nfp, lens).length
+        feasible_regions = []
+        Lval = 3
+        for nval in (-1, 0, 1, 2, 3, 4):
+            okr = True
+            for t, pol in rawguards:
+                try:
+                    v = _eval_cmp(_LenConst(Lval).visit(__import__("copy").deepcopy(t)), {nfp: nval})
+                except ValueError:
+                    continue
+                if bool(v) != pol:
+                    okr = False
+                    break
+            if okr:
+                feasible_regions.append(nval)
+        if not feasible_regions:
+            continue
+        if all(v < 0 for v in feasible_regions):
+            continue       # n_frac < 0: outside the quantifier
+        if not s_.haspoint:
+            ck.bad(rule, f, "every n_frac >= 0 gets a binary point", "no point inserted for n_frac in region %s (digit count 3)" % feasible_regions, pf.ret_stmt,
                    "some fraction length falls through all branches")
             continue
-        neg = any(isinstance(g[2], ast.Compare) and isinstance(g[2].ops[0], ast.Lt) and g[1] and isinstance(g[2].comparators[0], ast.Constant) and g[2].comparators[0].value == 0 for g in branch_guards)
-        if neg:
-            continue    # n_frac < 0 is outside the quantifier (0..n_word)
-        try:
-            import copy
-            s_ = _abs_str(_LenRewrite(xb).visit(copy.deepcopy(cand.raw_value)), L, nf, base=xb)
-        except NotATerm as e:
-            ck.unsure(rule, f, "branch is in the abstract string vocabulary", cand.stmt, str(e))
-            continue
-        if not s_.haspoint:
-            ck.bad(rule, f, "the branch inserts a point", "no '.' in %s" % src(cand.raw_value), cand.stmt)
-            continue
-        # specialise by the branch guard: n_frac == 0 / n_frac == len(x_bin)
-        right = s_.right
         sub = {}
-        for g in branch_guards:
-            t = g[2]
-            if g[1] and isinstance(t, ast.Compare) and len(t.ops) == 1 and isinstance(t.ops[0], ast.Eq) and dotted(t.left) == nfp:
-                r = t.comparators[0]
-                if isinstance(r, ast.Constant):
-                    sub[("v", nfp)] = Term.const(r.value)
-                elif isinstance(r, ast.Call) and dotted(r.func) == "len":
-                    sub[("v", "L")] = nf
+        if feasible_regions == [0]:
+            sub[("v", nfp)] = Term.const(0)
+        if feasible_regions == [Lval] and digit_len is not None:
+            # n_frac == number of digits: express the digit count through n_frac
+            for a in digit_len.atoms():
+                if a[0] == "v":
+                    sub[a] = nf - (digit_len - Term.atom(a))
+        got = s_.right.subst(sub)
         want = nf.subst(sub)
-        got = right.subst(sub)
-        total = s_.length.subst(sub)
         ck.saw(terms=1)
         if got != want:
-            ck.bad(rule, f, "the point is placed n_frac digits from the right", "branch %s leaves %s digits after the point, expected %s" % (src(cand.raw_value)[:60], got.show(), want.show()), cand.stmt,
+            ck.bad(rule, f, "the point is placed n_frac digits from the right", "returns %s: %s digits after the point, expected %s (n_frac region %s of digit count 3)" % (src(pf.ret_stmt.value)[:50] if pf.ret_stmt is not None and pf.ret_stmt.value is not None else "", got.show(), want.show(), feasible_regions), pf.ret_stmt,
                    {"witness": witness(got, want)})
             continue
         okn += 1
-    ck.check(okn >= 4, rule, f, "insert_frac_point: %d branches each leave exactly n_frac digits right of the point" % okn, "only %d point-inserting branches recognised" % okn, f.node)
-    ck.saw(f)
+    ck.check(okn >= 4, rule, f, "insert_frac_point: %d feasible paths each leave exactly n_frac digits right of the point" % okn, "only %d point-inserting paths recognised" % okn, f.node)
+
+
+class _LenConst(ast.NodeTransformer):
+    """len(<anything>) -> constant digit count (for the finite ordering regions)"""
+
+    def __init__(self, L):
+        self.L = L
+
+    def visit_Call(self, n):
+        if dotted(n.func) == "len":
+            return ast.Constant(value=self.L)
+        return self.generic_visit(n)
 
 
 def decode_terms(ck, rule):
@@ -343,7 +466,7 @@ def decode_terms(ck, rule):
     # hex parsers delegate with the caller's n_word
     for q, target, nargs in (("utils.strhex2int", "utils.strbin2int", ("x_bin", "signed", "n_word")), ("utils.strhex2float", "utils.strbin2float", ("x_bin", "signed", "n_word", "n_frac"))):
         g = prog.func(q)
-        cs = [c for c in calls_in(g.node) if prog.resolve_call(g, c) == target]
+        cs = [c for g2, c in walk_closure(prog, g) if isinstance(c, ast.Call) and prog.resolve_call(g2, c) == target]
         if not cs:
             # decodes by itself: every shift amount must be expressed in n_word
             bad_syms = set()
@@ -360,7 +483,16 @@ def decode_terms(ck, rule):
         got = tuple(dotted(a) for a in c.args[:len(nargs)])
         ck.check(got == nargs, rule, g, "%s passes (%s) to %s" % (g.name, ", ".join(nargs), target.split(".")[1]), "passes %s" % (got,), c, "width/signedness of the caller is not the one decoded with")
         # zero-padding to n_word bits before decoding
-        padded = any(isinstance(n, ast.Compare) and "n_word" in src(n) and "len(" in src(n) for n in ast.walk(g.node))
+        # on some path the image handed to the binary parser is zero-extended: '0' * (n_word - <digits>)
+        padded = False
+        for pf in fpaths(prog, g):
+            for ce in pf.calls:
+                if prog.resolve_call(ce.ctx or g, ce.raw) == target and ce.call.args:
+                    for n in ast.walk(ce.call.args[0]):
+                        if isinstance(n, ast.BinOp) and isinstance(n.op, ast.Mult) and any(isinstance(x, ast.Constant) and x.value == "0" for x in (n.left, n.right)):
+                            cnt = n.right if isinstance(n.left, ast.Constant) else n.left
+                            if any(dotted(y) == "n_word" or (isinstance(y, ast.Name) and y.id == "n_word") for y in ast.walk(cnt)) or "n_word" in src(cnt) or "len(" in src(cnt):
+                                padded = True
         ck.check(padded, rule, g, "%s left-pads the binary image to n_word bits (hex digits of a top nibble may be short)" % g.name, "no padding to n_word", g.node)
     ck.saw(f)
 
